@@ -192,17 +192,6 @@ def all_strings(x):
             yield from all_strings(v)
 
 
-def _fail(ctx, case, detail):
-    """ctx.fail, with the known-finding classes of this module applied even when
-    KNOWN_FINDINGS.jsonl does not list them yet."""
-    for cls, pred in CLASSES.items():
-        if pred(case):
-            ctx.known_hits.setdefault(cls, {"case": case, "detail": detail})
-            ctx.count("known:" + cls)
-            return "known"
-    return ctx.fail(case, detail)
-
-
 # ------------------------------------------------------------------ part F
 
 def real_flatten(x):
@@ -545,7 +534,7 @@ def part_v(ctx, n, oracle_only=False):
         prev = bykey.setdefault(kb, (ct, t))
         if prev[0] != ct:
             pair = {"part": "V", "a": prev[1], "b": t, "nul": triple_has_nul(prev[1]) or triple_has_nul(t)}
-            _fail(ctx, pair, "two different (cdefs, source, kwargs) inputs are hashed through the same key "
+            ctx.fail(pair, "two different (cdefs, source, kwargs) inputs are hashed through the same key "
                              "and get the module name %s" % name)
         if oracle_only:
             continue
